@@ -1,14 +1,12 @@
-//@ unit elemstack_levels
+//@ unit elemstack_addLevel
 //@ props C06 C01
 //@ kind P
-//@ enforce ElemStack_expandStack
 //@ enforce ElemStack_addLevel
 //@ enforce ElemStack_addLevel_decl
-//@ enforce ElemStack_popTop
 //@ replace memcpy
 //@ replace memset
 //@ cbmc all --unsigned-overflow-check
-//@ entry h_elemstack_levels
+//@ entry h_elemstack_addLevel
 //@ note loop-free; stack capacity 4..2^40 ((XMLSize_t)(cap * 1.25) evaluated bit-precisely; it does not grow below 4: RI_stk, the constructor starts at 32); memcpy / memset are replaced by their C11 contracts stated at the ghost-selected slot; `new (fMemoryManager) StackElem` and allocate() hand out harness-prepared fresh objects, never fail
 //@ note addLevel: the real body of expandStack is inlined in addLevel (replacing it by its contract would havoc the fStack pointer, which cbmc 6.11 cannot digest); expandStack's own contract is enforced separately in this unit
 //@ note popTop exposes the previous bindings again: it only decrements fStackTop (frame), so the rows below are what addLevel left
@@ -59,7 +57,7 @@ __CPROVER_ensures(__CPROVER_old(fStackTop) != 0 ==> (!verif_thrown && fStackTop 
 @*/
 
 struct StackElem ROW_OLD, ROW_NEW;
-void h_elemstack_levels(void)
+void h_elemstack_addLevel(void)
 {
   int op; _Bool recycled; XMLSize_t rd;
   VERIF_INPUT(SELF); VERIF_INPUT(ROW_OLD); VERIF_INPUT(ROW_NEW); VERIF_INPUT(GW); VERIF_INPUT(GZ); VERIF_INPUT(NEXTSIZE); VERIF_INPUT(op); VERIF_INPUT(recycled); VERIF_INPUT(rd);
@@ -73,10 +71,8 @@ void h_elemstack_levels(void)
   if (fStackTop < fStackCapacity) fStack[fStackTop] = recycled ? &ROW_OLD : 0;
   NEWTOP = (fStackTop < fStackCapacity && recycled) ? &ROW_OLD : &ROW_NEW;
   verif_thrown = 0;
-  if (op != 0) GZ = fStackTop;
-  if (op == 0) ElemStack_expandStack();
-  else if (op == 1) ElemStack_addLevel();
-  else if (op == 2) ElemStack_addLevel_decl((void *)&ROW_OLD, rd);
-  else ElemStack_popTop();
+  GZ = fStackTop;
+  if (op == 1) ElemStack_addLevel();
+  else ElemStack_addLevel_decl((void *)&ROW_OLD, rd);
   VERIF_CANARY("after call");
 }
